@@ -940,6 +940,9 @@ func (ex *Exec) callContract(st *State, c *Contract, fi *FuncInfo, ct *callTarge
 				penv.ghostAssume(g)
 			}
 			for _, e := range c.Ensures {
+				if e.Trusted {
+					ex.w.assumed["trusted postcondition (NOT proved) of "+name+": "+e.Src] = true
+				}
 				post.assume(penv.boolTerm(e.E))
 			}
 		}()
@@ -1563,6 +1566,10 @@ func (ex *Exec) checkPost(st *State, fi *FuncInfo, c *Contract, vals []Val) {
 		env.ghostUpdate(g)
 	}
 	for _, e := range c.Ensures {
+		if e.Trusted {
+			ex.w.assumed["trusted postcondition (NOT proved) of "+fi.FullName()+": "+e.Src] = true
+			continue
+		}
 		ex.oblige(st, fmt.Sprintf("post%d", e.Ord), e.Props, env.goal(e.E), "ensures "+e.Src, pos)
 	}
 	ex.frameObligations(st, "exit", pos)
